@@ -30,6 +30,10 @@ type UDPPeer struct {
 	ttl        uint8
 	all        bool
 
+	// The interfaces each group was joined on, most recent last (nil: the system default). The kernel matches
+	// leave, block and unblock requests against the interface of the membership, so they must name it again.
+	joinedOn map[netip.Addr][]*net.Interface
+
 	slot internal.Slot
 
 	sockAddr syscall.Sockaddr
@@ -436,7 +440,36 @@ func (p *UDPPeer) joinIPv4(
 	} else {
 		err = ipv4.AddSourceMembership(p.socket, multicastIP, sourceIP, iff)
 	}
+	if err == nil {
+		p.rememberJoin(multicastIP, iff)
+	}
 	return
+}
+
+func sameInterface(a, b *net.Interface) bool {
+	return (a == nil && b == nil) || (a != nil && b != nil && a.Index == b.Index)
+}
+
+func (p *UDPPeer) rememberJoin(multicastIP netip.Addr, iff *net.Interface) {
+	if p.joinedOn == nil {
+		p.joinedOn = make(map[netip.Addr][]*net.Interface)
+	}
+	on := p.joinedOn[multicastIP]
+	for i := range on {
+		if sameInterface(on[i], iff) {
+			on = append(on[:i], on[i+1:]...)
+			break
+		}
+	}
+	p.joinedOn[multicastIP] = append(on, iff)
+}
+
+// joinedInterface returns the interface multicastIP was most recently joined on (nil: the system default).
+func (p *UDPPeer) joinedInterface(multicastIP netip.Addr) *net.Interface {
+	if on := p.joinedOn[multicastIP]; len(on) > 0 {
+		return on[len(on)-1]
+	}
+	return nil
 }
 
 func (p *UDPPeer) joinIPv6(
@@ -488,10 +521,14 @@ func (p *UDPPeer) LeaveSource(multicastIP IP, sourceIP SourceIP) error {
 
 func (p *UDPPeer) leaveIPv4(multicastIP, sourceIP netip.Addr) (err error) {
 	empty := netip.Addr{}
+	iff := p.joinedInterface(multicastIP)
 	if sourceIP == empty {
-		err = ipv4.DropMembership(p.socket, multicastIP)
+		err = ipv4.DropMembershipOn(p.socket, multicastIP, iff)
+		if on := p.joinedOn[multicastIP]; err == nil && len(on) > 0 {
+			p.joinedOn[multicastIP] = on[:len(on)-1]
+		}
 	} else {
-		err = ipv4.DropSourceMembership(p.socket, multicastIP, sourceIP)
+		err = ipv4.DropSourceMembershipOn(p.socket, multicastIP, sourceIP, iff)
 	}
 	return
 }
@@ -525,7 +562,7 @@ func (p *UDPPeer) BlockSource(multicastIP IP, sourceIP SourceIP) error {
 }
 
 func (p *UDPPeer) blockIPv4(multicastIP, sourceIP netip.Addr) (err error) {
-	return ipv4.BlockSource(p.socket, multicastIP, sourceIP)
+	return ipv4.BlockSourceOn(p.socket, multicastIP, sourceIP, p.joinedInterface(multicastIP))
 }
 
 func (p *UDPPeer) blockIPv6(multicastIP, sourceIP netip.Addr) (err error) {
@@ -555,7 +592,7 @@ func (p *UDPPeer) UnblockSource(multicastIP IP, sourceIP SourceIP) error {
 }
 
 func (p *UDPPeer) unblockIPv4(multicastIP, sourceIP netip.Addr) (err error) {
-	return ipv4.UnblockSource(p.socket, multicastIP, sourceIP)
+	return ipv4.UnblockSourceOn(p.socket, multicastIP, sourceIP, p.joinedInterface(multicastIP))
 }
 
 func (p *UDPPeer) unblockIPv6(multicastIP, sourceIP netip.Addr) (err error) {
